@@ -37,10 +37,22 @@ out.append("  After strengthening, %d/%d are caught by the target property's che
 out.append("  What this says: a repository-specific lint set catches the classes of mistakes it has rules for, and roughly every")
 out.append("  second *new* kind of realistic breakage needs a new (small) rule; the value of the corpus is that each such rule is")
 out.append("  now in place, floored and self-tested.")
+r3 = [r for r in rows if r[2] == 3]
+if r3:
+    n3 = len(r3)
+    f3t = sum(1 for r in r3 if r[7])
+    f3a = sum(1 for r in r3 if r[8])
+    out.append("* **Round 3** (%d changes; the agents were shown the six sites already used per property and asked for other mechanisms," % n3)
+    out.append("  less central helpers and history- or input-dependent breakage).  Evaluated all at once with the rules frozen at commit")
+    out.append("  82e06b2, before anything was changed: **%d/%d (%d%%) caught at first sight by the target property's check, %d/%d (%d%%)" % (f3t, n3, round(100.0 * f3t / n3), f3a, n3, round(100.0 * f3a / n3)))
+    out.append("  by some claimed property's check** — this is the clean generalisation number (no batch benefited from an earlier one).")
+    out.append("  Response: where the rule that fired for another property states a condition the target property also needs, it was")
+    out.append("  added to the target's rule list; six new rules (§3 \"Rules added in round 3\"); now %d/%d are caught by the target" % (sum(1 for r in r3 if r[4]), n3))
+    out.append("  property's check and %d/%d by some check.  The rest are listed in §11b with the reason no structural clause was found." % (sum(1 for r in r3 if r[5]), n3))
 out.append("")
 out.append("The thorough tier re-applies, for each property, every change listed here as caught by it and requires the check to fire.")
 out.append("")
-out.append("| id | what the change does | target check fires | fires under | deciding rules | first sight (round 2) |")
+out.append("| id | what the change does | target check fires | fires under | deciding rules | first sight (rounds 2, 3) |")
 out.append("|---|---|---|---|---|---|")
 for name, prop, rnd, summ, tgt, fires, rules, fst, fsa in rows:
     out.append("| %s | %s | %s | %s | %s | %s |" % (name, summ, "yes" if tgt else "no", ",".join(fires) or "—", ", ".join(rules)[:110] or "—",
